@@ -19,6 +19,8 @@ C = {
          "TLA+ policy truth function vs. SatSet on the library's lift output (Trace_Ast)"),
  "C10": ("ast-pipeline", "model_checking", "parser-built AST = written AST, print->parse equality and print fixpoint for every enumerated miniscript in 4 contexts (descriptor/policy/key/checksum parts: not yet)", "5/C10",
          "structural AST comparison in TLA+ of parse/print round trips (Trace_Ast)"),
+ "C12": ("ast-pipeline", "model_checking", "each validation switch rejects exactly the ASTs with the L1 defect (Validation.tla), parameter sets / parsers accept exactly ObeysContext / ObeysSane, limits exact w.r.t. published figures, lattice monotone, descriptor parsers and constructors accept only context-obeying scripts; over all enumerated typed and untyped ASTs in 4 contexts", "5/C12",
+         "TLA+ Validation.tla defect predicates vs. library validate()/parsers/constructors (Trace_Ast)"),
  "C19": ("pairs-pipeline", "model_checking", "full ordered pair matrix of ==, cmp, hash and to_string over every well-typed miniscript up to the node bound plus near-miss families, in explicit and sugared text, 4 contexts; every cell judged against abstract AST identity; ordering checked to be a strict total order (distinct scores)", "5/C19",
          "structural identity of abstract ASTs (TLA+ Gen_Pairs) vs. library Eq/Ord/Hash matrix (Trace_Eq)"),
 }
